@@ -7,17 +7,20 @@
    (e.g. BrokenPipeError while printing the log line -- indistinguishable by type from a wire failure), or a
    BaseException that is no Exception (KeyboardInterrupt, asyncio.CancelledError)):
      clean    s_unary  s_stream_full  s_stream_close(0,1,3)  s_stream_cancel(0,2)  s_xchg_close(0,2)
-              s_unary_intr(1..3, Exception)  unary call whose on_log raises at log pos (the client drains)
-              s_close_intr(1..3, Exception)  on_log raises while close() drains the unread rest of an interrupted turn
-              s_unary_error(0,1)  s_stream_error(0..2)  s_init_error(0 header-less, 1 header)  s_xchg_error
+              s_unary_error(0,1)  s_stream_error(0..2)  s_init_error(0: header-less)  s_xchg_error
                                              -- the *server* raised; the borrower goes on or leaves
-     abandon  s_abandon(0..3)  s_abandon_hdr(0,1)  s_tick_intr(1..3, any exc)  s_xchg_intr(1,2, any exc)
-              s_hdr_intr(1,2, any exc)  s_abandon_then_unary(0,1)
+     abandon  s_abandon(0..3)  s_abandon_hdr(0,1)  s_tick_intr(1..3; Exception, Base)  s_xchg_intr(1,2; Exception, Base)
+              s_hdr_intr(1,2; any exc)  s_abandon_then_unary(0,1)
+              s_init_error(1: header declared -- a stream request without a session; the pool cannot tell it from s_hdr_intr)
                                              -- the stream (or its init) is left unfinished, nothing closed after it
-     nonlast  s_abandon_then_close(0..2)  s_abandon_then_cancel(1)  s_closed_then_hdr_intr(1,2, any exc)
+     nonlast  s_abandon_then_close(0..2)  s_abandon_then_cancel(1)  s_closed_then_hdr_intr(1,2; any exc)
               -- a stream / a stream init is left unfinished, but the most recent StreamSession object is closed
-     intr     s_unary_intr(1..3, OSError | Base)  s_close_intr(1..3, OSError | Base)
-              -- a call (or a close-drain) cut short by an exception the client does not answer by draining
+     intr     s_unary_intr(1..3; any exc)   unary call whose on_log raises at log pos
+              s_close_intr(1..3; any exc)   on_log raises while close() drains the unread rest of an interrupted turn
+              s_tick_intr(1..3; OSError)  s_xchg_intr(1,2; OSError)   a stream turn whose on_log raises something the
+                                            client takes for a wire failure (it marks the session closed without draining)
+              -- a call / turn / drain cut short by a client-side exception after which no stream is visibly left
+                 open: either the client reads the response to its end after all, or the pool must not reuse the worker
    After the script the first borrower leaves its `with pool.connect(...)`; a second borrower connects, echoes two
    values only it knows and reads a small stream.
 
@@ -30,20 +33,22 @@ EXTENDS Naturals, Sequences, FiniteSets
 Row(k, s, ps, es) == {[kind |-> k, script |-> s, pos |-> p, exc |-> e] : p \in ps, e \in es}
 N == {"none"}
 E == {"Exception"}
-OB == {"OSError", "Base"}
-AnyExc == E \cup OB
+O == {"OSError"}
+EB == {"Exception", "Base"}
+AnyExc == {"Exception", "OSError", "Base"}
 Scripts ==
   Row("clean", "s_unary", {0}, N) \cup Row("clean", "s_stream_full", {0}, N) \cup Row("clean", "s_stream_close", {0, 1, 3}, N)
   \cup Row("clean", "s_stream_cancel", {0, 2}, N) \cup Row("clean", "s_xchg_close", {0, 2}, N)
-  \cup Row("clean", "s_unary_intr", {1, 2, 3}, E) \cup Row("clean", "s_close_intr", {1, 2, 3}, E)
   \cup Row("clean", "s_unary_error", {0, 1}, N) \cup Row("clean", "s_stream_error", {0, 1, 2}, N)
-  \cup Row("clean", "s_init_error", {0, 1}, N) \cup Row("clean", "s_xchg_error", {0}, N)
+  \cup Row("clean", "s_init_error", {0}, N) \cup Row("clean", "s_xchg_error", {0}, N)
   \cup Row("abandon", "s_abandon", {0, 1, 2, 3}, N) \cup Row("abandon", "s_abandon_hdr", {0, 1}, N)
-  \cup Row("abandon", "s_tick_intr", {1, 2, 3}, AnyExc) \cup Row("abandon", "s_xchg_intr", {1, 2}, AnyExc)
+  \cup Row("abandon", "s_tick_intr", {1, 2, 3}, EB) \cup Row("abandon", "s_xchg_intr", {1, 2}, EB)
   \cup Row("abandon", "s_hdr_intr", {1, 2}, AnyExc) \cup Row("abandon", "s_abandon_then_unary", {0, 1}, N)
+  \cup Row("abandon", "s_init_error", {1}, N)
   \cup Row("nonlast", "s_abandon_then_close", {0, 1, 2}, N) \cup Row("nonlast", "s_abandon_then_cancel", {1}, N)
   \cup Row("nonlast", "s_closed_then_hdr_intr", {1, 2}, AnyExc)
-  \cup Row("intr", "s_unary_intr", {1, 2, 3}, OB) \cup Row("intr", "s_close_intr", {1, 2, 3}, OB)
+  \cup Row("intr", "s_unary_intr", {1, 2, 3}, AnyExc) \cup Row("intr", "s_close_intr", {1, 2, 3}, AnyExc)
+  \cup Row("intr", "s_tick_intr", {1, 2, 3}, O) \cup Row("intr", "s_xchg_intr", {1, 2}, O)
 MaxIdles == {0, 1, 2}
 Cases == {[kind |-> r.kind, script |-> r.script, pos |-> r.pos, exc |-> r.exc, mi |-> m] : r \in Scripts, m \in MaxIdles}
 
